@@ -38,12 +38,50 @@ def check_kind(ctx: Ctx, kind, maxlen, variants=("plain", "event", "listened"), 
     else:
         paths, ncov = graphs.edge_cover(nodes, edges, inits)
     paths.sort(key=lambda p: [edges[k][1] for k in p])      # deterministic whatever the order of the dump
+    # plus, always (whatever the sample): histories with two epochs of EQUAL length (k observations, initialize, k observations);
+    # they are queried sparsely (index = 2 mod 3), which is what a cache that survives initialize() needs in order to show
+    succ = {}
+    for k_, (u, lab, v) in enumerate(edges):
+        succ.setdefault(u, []).append(k_)
+
+    def reg_paths(u, klen):
+        """paths of klen accepted observation edges from u (first two alternatives per node, deterministic order)"""
+        if klen == 0:
+            return [[]]
+        res = []
+        cands = [e for e in sorted(succ.get(u, []), key=lambda e: edges[e][1]) if nodes[edges[e][2]]["op"]["a"].startswith("Register") and nodes[edges[e][2]]["op"].get("res") == "ok"]
+        for e in cands[:2] + cands[-1:]:
+            for rest in reg_paths(edges[e][2], klen - 1):
+                res.append([e] + rest)
+        return res
+    extra = []
+    for klen in (2, 3):
+        for p1 in reg_paths(inits[0], klen)[:4]:
+            u = edges[p1[-1]][2] if p1 else inits[0]
+            ini = [e for e in succ.get(u, []) if nodes[edges[e][2]]["op"]["a"] == "Initialize"]
+            if not ini:
+                continue
+            for p2 in reg_paths(edges[ini[0]][2], klen)[-3:]:
+                extra.append(p1 + [ini[0]] + p2)
+    equal_epoch = []
+    for p in extra:
+        while len(paths) % 3 != 2:
+            paths.append(paths[len(paths) % max(1, len(paths))] if paths else p)      # (padding so that the next index is sparse)
+        equal_epoch.append(len(paths))
+        paths.append(p)
+    ctx.notes.setdefault("equal_epoch_paths", {})[f"{kind}/{maxlen}"] = len(extra)
     if max_paths and len(paths) > max_paths:
+        keep = set(equal_epoch)
         step = len(paths) / max_paths
-        paths = [paths[int(i * step)] for i in range(max_paths)]
+        chosen = sorted(set(int(i * step) for i in range(max_paths)) | keep)
+        # indices decide the variant / sparseness of a path: keep them stable by replacing dropped paths with None
+        paths = [paths[i] if i in chosen else None for i in range(len(paths))]
     ctx.notes.setdefault("edge_cover", {})[f"{kind}/{maxlen}/{vals}"] = {"nodes": len(nodes), "edges": len(edges), "paths": len(paths)}
     n = 0
+    sparse_n = {}
     for pi, p in enumerate(paths):
+        if p is None:
+            continue
         variant = variants[pi % len(variants)]
         aff = affine[pi % len(affine)] if kind != "counter" else (Fraction(1 + pi % 3), Fraction(pi % 2))
         tscale = [1.0, 0.25, 1024.0][pi % 3]
@@ -59,9 +97,15 @@ def check_kind(ctx: Ctx, kind, maxlen, variants=("plain", "event", "listened"), 
                 # sparse querying: one confidence interval per epoch (just before an initialise / at the end)
                 probs += rp.compare(st["g"], alphas=(0.05,) if nxt in ("Initialize", "end") else ())
             elif kind != "tally" and pi % 3 == 2:
-                # sparse querying of every getter: once per epoch (a cache that survives initialize() is refreshed by queries in between)
-                if nxt in ("Initialize", "end"):
+                # sparse querying of every getter: at the end of an epoch, and in later epochs exactly when the count equals the count
+                # of the previous query (a cache keyed by the count that survives initialize() is refreshed by any query in between)
+                try:
+                    n_now = int(dst.val(st["g"]["n"]))
+                except Exception:
+                    n_now = None
+                if nxt in ("Initialize", "end") or (n_now is not None and n_now == sparse_n.get(pi) and n_now > 0):
                     probs += rp.compare(st["g"])
+                    sparse_n[pi] = n_now
             else:
                 probs += rp.compare(st["g"])
             if op["a"].startswith("Register") and op.get("res") == "ok":
@@ -108,4 +152,5 @@ def check_kind(ctx: Ctx, kind, maxlen, variants=("plain", "event", "listened"), 
     ctx.evaluations += n
     ctx.traces += n
     if paths:
-        ctx.sample({"kind": f"{kind} path", "ops": [dict(nodes[edges[k][2]]["op"]) for k in paths[len(paths) // 2]]})
+        some = next(p for p in paths[len(paths) // 2:] + paths if p is not None)
+        ctx.sample({"kind": f"{kind} path", "ops": [dict(nodes[edges[k][2]]["op"]) for k in some]})
